@@ -59,6 +59,11 @@ Section Steps.
     replace (h + doff n - h) with (doff n) by lia. rewrite H. rewrite firstn_app_le by apply doff_le. reflexivity.
   Qed.
 
+End Steps.
+
+(* the optional fields of index 3..8: nothing here depends on how the name was read (covn: the bytes collected so far) *)
+Section HeadSteps.
+  Variables (covn : bytes) (n : name).
   (* knowledge after the optional fields of index 3..8 *)
   Definition KH cbp mbf fh nonce life hop : iknow := mkIK (Some n) cbp mbf fh nonce life hop None None None covn None None.
 
@@ -139,7 +144,7 @@ Section Steps.
     destruct Hc as [?|[?|[?|[?|[?|?]]]]]; subst nf; icomp; rewrite E; cbn [bind]; rewrite Ez, Ez', Er;
       (eexists _, 9, r3; split; [reflexivity|]; split; [exact V3|]; isplit; repeat split; auto; lia).
   Qed.
-End Steps.
+End HeadSteps.
 
 Section Tail.
   Variables (covn : bytes) (n : name) (cbp mbf : bool) (fh : option (list name)) (nonce : option N) (life : option Z) (hop : option N).
@@ -237,7 +242,7 @@ Definition int_post base cov0 n cbp mbf fh nonce life hop app si sv : @assertion
   let covn := cov0 ++ firstn (doff n) (name_inner n) in
   fun all p s =>
     match app with
-    | None => iholds (KH cov0 n cbp mbf fh nonce life hop) 3 9 all p s
+    | None => iholds (KH covn n cbp mbf fh nonce life hop) 3 9 all p s
     | Some c =>
         match sv with
         | None => iholds (KT n cbp mbf fh nonce life hop (Some c) si None covn (Some P0)) 12 13 all p s
@@ -259,7 +264,7 @@ Proof.
   assert (HP0 : P0 = x1 + length (enc_elems (int_head_elems cbp mbf fh nonce life hop))).
   { unfold P0, x1, int_pre. rewrite enc_elems_app, app_length. lia. }
   eapply hoare_app; [apply (hoare_at 15 int_handle int_skip _ _ _ base (int_name_step cov0 n Hn))|]. fold x1.
-  eapply hoare_app; [apply (hoare_at 15 int_handle int_skip _ _ _ x1 (int_head_hoare cov0 n cbp mbf fh nonce life hop Hh))|].
+  eapply hoare_app; [apply (hoare_at 15 int_handle int_skip _ _ _ x1 (int_head_hoare (cov0 ++ firstn (doff n) (name_inner n)) n cbp mbf fh nonce life hop Hh))|].
   rewrite <- HP0. unfold int_tail_elems, int_post. fold P0.
   destruct app as [c|].
   - cbn [oel].
